@@ -31,6 +31,8 @@ Failed(e) ==
   \cup (IF e.tr /\ ~e.stg /\ e.A = e.B /\ e.E = e.A /\ ~(e.A2 = e.A /\ e.B2 = e.B /\ e.E2 = e.E /\ e.nplan \in {0, -1} /\ e.exit = 0) THEN {"C06"} ELSE {})
   \* the same start state run with the roots named in the other order ends in the same trees (altA2 = A2 when not re-run)
   \cup (IF e.altA2 # e.A2 \/ e.altB2 # e.B2 THEN {"C06"} ELSE {})
+  \* directed scenarios: a divergent edit resolves, on both sides, to the version with the greater digest AT the path
+  \cup (IF completed /\ \E k \in 1..Len(e.want_at) : e.A2[e.want_at[k][1]] # e.want_at[k][2] \/ e.B2[e.want_at[k][1]] # e.want_at[k][2] THEN {"C06"} ELSE {})
   \cup (IF ~e.tr /\ ~(\A i \in 1..N(e) : (e.A[i] # 0 => e.A2[i] # 0) /\ (e.B[i] # 0 => e.B2[i] # 0)) THEN {"C07"} ELSE {})
   \cup (IF ~e.tr /\ completed /\ ~(\A i \in 1..N(e) : (e.A[i] # 0 => SurvivesIn(e, e.A2, i, e.A[i]) /\ SurvivesIn(e, e.B2, i, e.A[i]))
                                                       /\ (e.B[i] # 0 => SurvivesIn(e, e.A2, i, e.B[i]) /\ SurvivesIn(e, e.B2, i, e.B[i]))) THEN {"C07"} ELSE {})
